@@ -148,8 +148,18 @@ def run (working : Bool) (cl : Client α κ σ) (s : State α κ σ) : List (Eve
 def init (heads : List α) (locs : List σ) : State α κ σ :=
   { heads := heads, pub := heads, procs := locs.map fun l => { loc := l, instrs := [] }, lock := none }
 
-/-- reorder the directory listing as the real `read_dir` returned it -/
+/-- elements at the given positions -/
+def pickAll (hs : List α) : List Nat → Option (List α)
+  | [] => some []
+  | i :: r =>
+    match hs[i]?, pickAll hs r with
+    | some x, some xs => some (x :: xs)
+    | _, _ => none
+
+/-- reorder the directory listing as the real `read_dir` returned it: `perm` must name every
+    position exactly once -/
 def permute (hs : List α) (perm : List Nat) : Option (List α) :=
-  if perm.length = hs.length ∧ perm.Nodup then perm.mapM (hs[·]?) else none
+  if perm.length = hs.length ∧ (List.range hs.length).all (fun i => perm.contains i) then pickAll hs perm
+  else none
 
 end JjModel.HeadProto
